@@ -678,4 +678,5 @@ func TestC08(t *testing.T) {
 	st := vstat.New("C08")
 	defer finish(t, st)
 	rapidProp(t, st, "logs", perShard(pick(112, 3000)), 1, c08Gen, func(p c08Plan) *viol { return c08Run(t, st, p) })
+	rapidProp(t, st, "file-board-ignore", perShard(pick(400, 20000)), 3, c08GenIgnore, func(p c08IgnorePlan) *viol { return c08RunIgnore(st, p) })
 }
